@@ -29,7 +29,9 @@ class Env:
 
     def new_name(self, prefix='v'):
         self.fresh += 1
-        pool = ['x', 'y', 'acc', 'tmp', 'имя', '%my var%', 'len', 'str', 'k', 'v', 'n', 'max', 'item']
+        pool = ['x', 'y', 'acc', 'tmp', 'имя', '%my var%', 'len', 'str', 'k', 'v', 'n', 'max', 'item',
+                # a name is an opaque string: spellings that Unicode normalisation (NFC / NFKC) would rewrite stay distinct from their normal forms
+                '\u00b5', '\u2126m', 'x\u00b2', '\uff58', '\ufb01le', '%\ufb01le.size%', '\u212bx']
         if self.r.random() < 0.25:
             n = self.r.choice(pool)
             if n not in self.vars:
